@@ -1850,3 +1850,16 @@ register(Obligation(name="C05.get_psi_get_epsilon.left_handed_cells", prop="C05"
                     run=BoundedNative(nat_spectrum_left_handed, 1, tol=1e-9, what="eigenstates orthonormal, H diagonal in their span, eigenvalues above the exact ones, in left-handed cells (He / GTH, H / harmonic potential)"),
                     budget={"quick": 300, "thorough": 600},
                     doc="BOUNDED: orthonormal eigenstates and the variational bound eps >= exact eigenvalues in cells with a negative determinant of the lattice matrix"))
+
+
+# ------------------------------------------------------------------------------------------------
+# writes-frame of eminus.dft / eminus.gga (AST; shared rule in contracts/frame_common.py)
+# ------------------------------------------------------------------------------------------------
+from contracts.frame_common import WritesFrame  # noqa: E402
+
+for _prop, _what in (("C01", "the coefficients W, the pre-computed fields and the SCF object handed to get_grad / H / H_precompute / Q are left as they are: the gradient is a function of its arguments"),
+                     ("C04", "orth / orth_unocc / get_n_spin / get_n_total / get_n_single / get_tau leave the coefficient arrays and the Atoms object they are handed untouched")):
+    register(Obligation(name=f"{_prop}.dft_gga.writes_frame", prop=_prop, engine="Z", run=WritesFrame(("eminus.dft", "eminus.gga")), assumes=("cpython",),
+                        functions=["eminus.dft:get_grad", "eminus.dft:H", "eminus.dft:H_precompute", "eminus.dft:Q", "eminus.dft:orth", "eminus.dft:orth_unocc", "eminus.dft:get_n_spin",
+                                   "eminus.dft:get_n_total", "eminus.dft:get_n_single", "eminus.gga:get_tau", "eminus.gga:calc_Vtau", "eminus.gga:gradient_correction", "eminus.gga:get_grad_field"],
+                        doc="frame (writes): no function of eminus.dft / eminus.gga stores in place into a parameter or a possible view of one: " + _what))
